@@ -116,6 +116,11 @@ func belongs(q *Query, id string, u scopeUnit) bool {
 	if q.Smoke {
 		return true
 	}
+	if q.Kind == "pre" {
+		// a callee's postconditions are assumed at the call: its preconditions are owed there, in
+		// every property that has the caller as a unit
+		return true
+	}
 	if q.Kind == "frame" {
 		// what a unit may write is part of every property it is a unit of: its callers assume
 		// the frame its contract states
